@@ -23,6 +23,9 @@ pub struct Ctl {
     pub write_filter: Mutex<Option<(String, i64, bool)>>,
     /// called for every numbered call with its kind (used by C17 to watch who writes when)
     pub observer: Mutex<Option<Arc<dyn Fn(&'static str) + Send + Sync>>>,
+    /// fail the n-th read-side call (open-for-read, read, len, size, list_dir) made by one particular
+    /// thread, once: (thread, countdown). Used by C17 to make one thread's recovery fail.
+    pub thread_fault: Mutex<Option<(std::thread::ThreadId, i64)>>,
 }
 
 impl Ctl {
@@ -38,6 +41,7 @@ impl Ctl {
             failures: AtomicU64::new(0),
             observer: Mutex::new(None),
             write_filter: Mutex::new(None),
+            thread_fault: Mutex::new(None),
         })
     }
 
@@ -60,6 +64,19 @@ impl Ctl {
         }
         if self.log_kinds.load(Ordering::Relaxed) {
             self.kinds.lock().unwrap().push(kind);
+        }
+        if matches!(kind, "read" | "read_from" | "open" | "len" | "size" | "list_dir") {
+            let mut tf = self.thread_fault.lock().unwrap();
+            if let Some((id, left)) = tf.as_mut() {
+                if *id == std::thread::current().id() {
+                    *left -= 1;
+                    if *left <= 0 {
+                        *tf = None;
+                        self.failures.fetch_add(1, Ordering::SeqCst);
+                        return Err(io::Error::new(io::ErrorKind::Other, "injected I/O failure"));
+                    }
+                }
+            }
         }
         if matches!(kind, "write" | "append") && self.write_filter.lock().unwrap().is_some() {
             let name = what();
